@@ -53,6 +53,16 @@ def handle (args : List String) : Verdict :=
       { agree := g, propOk := ok, msg := if ok then "" else s!"element {sym}: number {n}, charge {c}, mass {mass} inconsistent with the reference table",
         tag := "element" }
     | _, _, _, _ => bad "elem fields"
+  | ["covrad", hs, am, ae, nmm, nme, bm, be] =>
+    match unhex hs, parseRat2 am ae, parseRat2 nmm nme, parseRat2 bm be with
+    | some s, some a, some n, some b =>
+      -- the same radius in nm and bohr: the getter's factors against the reference values, to four significant digits
+      let okNm := relClose n (a / 10) (1 / 10000)
+      let okBohr := relClose b (a / bohrInAngstrom) (1 / 10000)
+      let ok := 0 < a && okNm && okBohr
+      { agree := ok, propOk := ok, tag := "covrad",
+        msg := s!"COVRAD {String.ofList s}: {a} ang -> nm ok={okNm} bohr ok={okBohr}" }
+    | _, _, _, _ => bad "covrad fields"
   | _ => bad "unknown op"
 
 end Driver.C20
